@@ -184,4 +184,54 @@ mod verif_k5 {
         std::mem::forget(k);
         std::mem::forget(sv);
     }
+
+    //@ harness k5_formats_kept property=C08 class=complete :: the `format` annotation: j2oas_integer maps int32 / int64, j2oas_number maps float / double, j2oas_string maps date / date-time / password / byte / binary to the like-named OpenAPI format, an absent format stays absent and any other text is kept verbatim as an unknown format (fixed strings, every table entry)
+    #[kani::proof]
+    #[kani::unwind(12)]
+    #[kani::stub(std::fmt::format, fmt_stub)]
+    fn k5_formats_kept() {
+        use openapiv3::{IntegerFormat, NumberFormat, StringFormat, VariantOrUnknownOrEmpty as V};
+        let which: u8 = kani::any();
+        kani::assume(which < 12);
+        let name: Option<&str> = match which {
+            0 => None, 1 => Some("int32"), 2 => Some("int64"), 3 => Some("float"), 4 => Some("double"), 5 => Some("date"),
+            6 => Some("date-time"), 7 => Some("password"), 8 => Some("byte"), 9 => Some("binary"), 10 => Some("zz"), _ => Some("uuid"),
+        };
+        let fmt: Option<String> = name.map(|s| String::from(s));
+        let none_e: Option<Vec<serde_json::Value>> = None;
+        if let openapiv3::SchemaKind::Type(openapiv3::Type::Integer(t)) = j2oas_integer(&fmt, &None, &none_e) {
+            match (&t.format, which) {
+                (V::Empty, 0) => (),
+                (V::Item(IntegerFormat::Int32), 1) => (),
+                (V::Item(IntegerFormat::Int64), 2) => (),
+                (V::Unknown(o), w) if w >= 3 => assert!(o.as_str() == name.unwrap()),
+                _ => assert!(false),
+            }
+            std::mem::forget(t);
+        } else { assert!(false); }
+        if let openapiv3::SchemaKind::Type(openapiv3::Type::Number(t)) = j2oas_number(&fmt, &None, &none_e) {
+            match (&t.format, which) {
+                (V::Empty, 0) => (),
+                (V::Item(NumberFormat::Float), 3) => (),
+                (V::Item(NumberFormat::Double), 4) => (),
+                (V::Unknown(o), w) if w != 0 && w != 3 && w != 4 => assert!(o.as_str() == name.unwrap()),
+                _ => assert!(false),
+            }
+            std::mem::forget(t);
+        } else { assert!(false); }
+        if let openapiv3::SchemaKind::Type(openapiv3::Type::String(t)) = j2oas_string(&fmt, &None, &none_e) {
+            match (&t.format, which) {
+                (V::Empty, 0) => (),
+                (V::Item(StringFormat::Date), 5) => (),
+                (V::Item(StringFormat::DateTime), 6) => (),
+                (V::Item(StringFormat::Password), 7) => (),
+                (V::Item(StringFormat::Byte), 8) => (),
+                (V::Item(StringFormat::Binary), 9) => (),
+                (V::Unknown(o), w) if w != 0 && !(5..=9).contains(&w) => assert!(o.as_str() == name.unwrap()),
+                _ => assert!(false),
+            }
+            std::mem::forget(t);
+        } else { assert!(false); }
+        std::mem::forget(fmt);
+    }
 }
